@@ -567,10 +567,6 @@ def expect_model(hout, mout, case):
                 ist = "err-version"
         if ist == "badalloc":
             continue            # the implementation was stopped by the allocation cap; the model has no cap
-        if mc == "ok" and ist == "err" and any(t.startswith("tamper:") for t in case.tags):
-            # TEMPORARY tolerance: /repo dcc9947 rejects streams that leave a point without a value; the Lean
-            # Edgebreaker model does not mirror that check yet (remove when the eb slice has merged it)
-            continue
         if mc != ist:
             return f"{ENTRY[e]}: implementation `{ist}` model `{mp[which][:80]}` for {replay_hint(case)}"
         if mc == "ok" and len(d["dumps"]) > di:
@@ -895,16 +891,16 @@ def stream_fields(data, trace=None):
                             p = o + 1 + per * i + j
                             if p < n:
                                 fields.append(Field(p, "byte", f"eb.decoder[{i}].{nm}", b[p]))
-                elif k == "att_descs":
+                    # DecodeAttributesDecoderData of every decoder follows: descriptors, then one decoder type per attribute
                     try:
-                        _att_descs(_Rd(b, n - int(f[2])), fields, ver, "eb.att")
+                        rr = _Rd(b, o + 1 + per * nd)
+                        for i in range(min(nd, 16)):
+                            na = _att_descs(rr, fields, ver, "eb.att")
+                            for j in range(na):
+                                fields.append(Field(rr.pos, "byte", "eb.seq_decoder_type", rr.b[rr.pos]))
+                                rr.u8()
                     except IndexError:
                         pass
-                elif k == "att_decoder_types":
-                    o = n - int(f[2])
-                    for j in range(4):
-                        if o + j < n:
-                            fields.append(Field(o + j, "byte", "eb.seq_decoder_type", b[o + j]))
                 elif k in ("constrained_mode", "normal_mode", "valence_contexts", "rans", "traversal", "orientations"):
                     o = n - int(f[2])
                     if 0 <= o < n:
